@@ -235,7 +235,8 @@ Inductive query :=
 | QResChange (pfx : id) (r : res) (vis : list bool)     (* change prefix -> change id, positions desc, Visible? *)
 | QShortCommit2 (k : id) (len : nat)                    (* IdPrefixIndex::shortest_commit_prefix_len_exact *)
 | QResCommit2 (pfx : id) (r : res)                      (* IdPrefixIndex::resolve_commit_prefix *)
-| QRefsLen (k : id) (names : list id) (min_len len : nat) (* shortest_commit_prefix_len incl. refs *)
+| QRefsLen (k : id) (min_len len : nat)                 (* shortest_commit_prefix_len incl. refs *)
+| QRefsLenChange (k : id) (len : nat)                   (* shortest_change_prefix_len incl. refs *)
 | QShortChange2 (k : id) (len : nat)                    (* IdPrefixIndex::shortest_change_prefix_len *)
 | QResChange2 (pfx : id) (r : res).                     (* IdPrefixIndex::resolve_change_prefix *)
 
@@ -246,6 +247,10 @@ Record case := mk_case {
   c_visible : list nat;                 (* global positions reachable from the view's heads *)
   c_dis : option (list id);             (* commit ids of the disambiguation set *)
   c_dis_changes : option (list id);     (* the change ids of those commits (with repetitions) *)
+  (* names of local bookmarks and tags whose target is not absent (normal or conflicted), that
+     read as hex prefixes / as reverse-hex prefixes (given here as the hex digits they denote) *)
+  c_names : list id;
+  c_change_names : list id;
   c_queries : list query;
   c_panicked : bool;
 }.
@@ -291,7 +296,9 @@ Definition query_corr (c : case) (cs : list (@table unit)) (hs : list (@table (l
       end
   | QShortCommit2 k len => (shortest_commit2 (c_dis c) k cs =? len)%nat
   | QResCommit2 pfx r => res_eqb (res_of_commit (resolve_commit2 (c_dis c) pfx cs)) r
-  | QRefsLen k names m len => (disambiguate_with_refs k names m =? len)%nat
+  | QRefsLen k m len => (disambiguate_with_refs k (c_names c) m =? len)%nat
+  | QRefsLenChange k len =>
+      (disambiguate_with_refs k (c_change_names c) (shortest_change2 (c_dis_changes c) k hs) =? len)%nat
   | QShortChange2 k len => (shortest_change2 (c_dis_changes c) k hs =? len)%nat
   | QResChange2 pfx r => res_eqb (res_of_change (resolve_change2 (c_dis_changes c) pfx hs)) r
   end.
@@ -328,6 +335,17 @@ Section Checker.
     | k :: rest, RAmb => negb (forallb (id_eqb k) rest)
     | _, _ => false
     end.
+
+  (** the displayed length: its prefix is no bookmark / tag name (unless the whole id is
+      shown) and matches no other id of the relevant set, so it resolves back; every shorter
+      length (from the set's minimum on) is a ref name or matches another id *)
+  Definition refs_short_ok (k : id) (len : nat) (names ids : list id) (lower : nat) : bool :=
+    let is_name n := existsb (id_eqb (firstn n k)) names in
+    (len <=? length k)%nat && (lower <=? len)%nat &&
+    ((len =? length k)%nat || negb (is_name len)) &&
+    forallb (fun x => negb (matches (firstn len k) x)) (others k ids) &&
+    forallb (fun l => is_name l || existsb (matches (firstn l k)) (others k ids))
+            (seq lower (len - lower)).
 
   Definition query_ok (q : query) : bool :=
     match q with
@@ -398,12 +416,18 @@ Section Checker.
           end
         | None => res_spec pfx all_changes r change_positions
         end
-    | QRefsLen k names m len =>
-        (* the shown length is not a ref name (unless it is the full id), and every length
-           from the minimum up to it is a ref name *)
-        let is_name n := existsb (id_eqb (firstn n k)) names in
-        ((len =? length k)%nat || ((m <=? len)%nat && (len <? length k)%nat && negb (is_name len)))
-        && forallb is_name (seq m (len - m))
+    | QRefsLen k _ len =>
+        match c_dis c with
+        | Some keys => if set_has k keys then refs_short_ok k len (c_names c) keys 1
+                       else refs_short_ok k len (c_names c) all_commits 0
+        | None => refs_short_ok k len (c_names c) all_commits 0
+        end
+    | QRefsLenChange k len =>
+        match c_dis_changes c with
+        | Some keys => if set_has k keys then refs_short_ok k len (c_change_names c) keys 1
+                       else refs_short_ok k len (c_change_names c) all_changes 0
+        | None => refs_short_ok k len (c_change_names c) all_changes 0
+        end
     end.
 End Checker.
 
